@@ -125,6 +125,15 @@ theorem Reset_eq : Gen.CpuGo.Primary.Reset = Cpu.reset := by
   simp only [Gen.CpuGo.Primary.Reset, Cpu.reset, gotie_p]
   gorun []
 
+/-- `TriggerIRQ()` / `triggerNMI()` as translated: the new value of the interrupt latch is the model's, the registers are untouched -/
+theorem TriggerIRQ_eq (latch : Nat) (s : St) :
+    Gen.CpuGo.Primary.TriggerIRQ latch s = some (Cpu.triggerIRQ .primary s.r latch, s) := by
+  simp only [Gen.CpuGo.Primary.TriggerIRQ, Cpu.triggerIRQ, Cpu.latchIRQ, get_bind, pure_run]
+  cases s.r.I <;> rfl
+
+theorem triggerNMI_eq (latch : Nat) (s : St) :
+    Gen.CpuGo.Primary.triggerNMI latch s = some (Cpu.triggerNMI .primary, s) := rfl
+
 /-! ### Step -/
 
 open Gen
